@@ -3,6 +3,7 @@ package main
 import (
 	"bufio"
 	"encoding/json"
+	"errors"
 	"flag"
 	"fmt"
 	"math/rand"
@@ -52,7 +53,11 @@ type recAdapter struct {
 	table *pokertable.Table
 	mu    sync.Mutex
 	calls []adapterCall
+	// refuse: kinds the "table" refuses (stand-alone only): the call is recorded and answered with an error
+	refuse map[string]bool
 }
+
+var errRefused = errors.New("player: invalid action")
 
 func (ra *recAdapter) SetActor(a actor.Actor) {
 	ra.act = a
@@ -85,6 +90,9 @@ func (ra *recAdapter) rec(player, kind string, arg int64, f func() error) error 
 		err = f()
 	}
 	ra.mu.Lock()
+	if ra.refuse[kind] {
+		err = errRefused
+	}
 	ra.calls = append(ra.calls, adapterCall{player, kind, arg, err, time.Now()})
 	ra.mu.Unlock()
 	return err
@@ -393,6 +401,61 @@ func playerCaseLate(snap, late *pokertable.Table, playerID string, status int, a
 	return fmt.Sprintf("ac player status=%s atime=%d waited=%s lvlup=%s late=%s st=%s gi=%d %s | call=%s delay_ms=%d\n", statusName, actionTime, b01(wait), b01(levelUp), b01(lt != nil), statusShort(t.State.Status), gi, v, res, delay)
 }
 
+// playerComeBack: a suspended player — the runner has just acted for him on an earlier request — presses Fold himself; the
+// table refuses it (too late). He is back all the same: at the next request the runner waits his thinking time out.
+func playerComeBack(first, snap *pokertable.Table, playerID string) string {
+	t := safeClone(snap)
+	f := safeClone(first)
+	if t == nil || f == nil {
+		return ""
+	}
+	t.Meta.ActionTime = 1
+	f.Meta.ActionTime = 1
+	gi := t.GamePlayerIndex(playerID)
+	v := viewStr(t.State.GameState)
+	a := actor.NewActor()
+	ad := &recAdapter{refuse: map[string]bool{}}
+	a.SetAdapter(ad)
+	pr := actor.NewPlayerRunner(playerID)
+	a.SetRunner(pr)
+	pr.Suspend()
+	ad.UpdateTableState(f) // suspended: answered at once
+	ad.take()
+	ad.mu.Lock()
+	ad.refuse["fold"] = true
+	ad.mu.Unlock()
+	pr.Fold() // his own, late fold: refused by the table
+	ad.mu.Lock()
+	ad.refuse["fold"] = false
+	ad.mu.Unlock()
+	ad.take()
+	t0 := time.Now()
+	ad.UpdateTableState(t)
+	immediate := ad.take()
+	res := "none"
+	delay := int64(0)
+	if len(immediate) > 0 {
+		res = fmt.Sprintf("%s:%d", immediate[0].kind, immediate[0].arg)
+		if len(immediate) > 1 {
+			res += "+more"
+		}
+	} else {
+		time.Sleep(time.Second - 150*time.Millisecond)
+		early := ad.take()
+		if len(early) > 0 {
+			res = fmt.Sprintf("early:%s:%d", early[0].kind, early[0].arg)
+		} else {
+			time.Sleep(400 * time.Millisecond)
+			late := ad.take()
+			if len(late) > 0 {
+				res = fmt.Sprintf("%s:%d", late[0].kind, late[0].arg)
+				delay = late[0].at.Sub(t0).Milliseconds()
+			}
+		}
+	}
+	return fmt.Sprintf("ac player status=running atime=1 waited=1 lvlup=0 late=0 back=1 st=%s gi=%d %s | call=%s delay_ms=%d\n", statusShort(t.State.Status), gi, v, res, delay)
+}
+
 // ----- (3) observer runner and the real adapter -----
 
 func privStr(gs *pokerface.GameState) string {
@@ -427,14 +490,22 @@ func observerCase(r *rand.Rand, snap *pokertable.Table, status pokertable.TableS
 	actors := []actor.Actor{}
 	for i := 0; i < nActors; i++ {
 		a := actor.NewActor()
-		a.SetAdapter(actor.NewTableEngineAdapter(nil, engineTable))
 		idx := i
 		if i == obsPos {
 			ob := actor.NewObserverRunner()
 			ob.EnabledSystemMode(system)
 			ob.OnTableStateUpdated(func(t *pokertable.Table) { observed = t; j, _ := t.GetJSON(); views[idx] = &seen{t, j} })
-			a.SetRunner(ob)
+			// wired adapter-first (as the suite does) or runner-first (a spectator attached in the middle of a hand to an
+			// adapter built from the engine's table): attaching must not hand the runner the engine's own table
+			if r.Intn(2) == 0 {
+				a.SetRunner(ob)
+				a.SetAdapter(actor.NewTableEngineAdapter(nil, engineTable))
+			} else {
+				a.SetAdapter(actor.NewTableEngineAdapter(nil, engineTable))
+				a.SetRunner(ob)
+			}
 		} else {
+			a.SetAdapter(actor.NewTableEngineAdapter(nil, engineTable))
 			// another observer in system mode stands for "any other actor": it keeps what it was given
 			ob := actor.NewObserverRunner()
 			ob.EnabledSystemMode(true)
@@ -861,6 +932,26 @@ func runActor(args []string) {
 			}(k, s, late, pl, status)
 		}
 		wg2.Wait()
+		back := make([]string, 6)
+		var wg3 sync.WaitGroup
+		for k := 0; k < len(back); k++ {
+			s := snaps[r.Intn(len(snaps))]
+			if len(s.State.GamePlayerIndexes) == 0 {
+				continue
+			}
+			pl := pickPlayer(r, s)
+			first := earlierAsk(snaps, s, pl)
+			if first == nil {
+				continue
+			}
+			wg3.Add(1)
+			go func(k int, first, s *pokertable.Table, pl string) {
+				defer wg3.Done()
+				back[k] = playerComeBack(first, s, pl)
+			}(k, first, s, pl)
+		}
+		wg3.Wait()
+		timed = append(timed, back...)
 		for _, l := range timed {
 			w.WriteString(l)
 			st.PlayerCases++
